@@ -11,7 +11,7 @@ ops (address texts are hex of their UTF-8 bytes, `-` = empty text):
   exec <active> g <txv>;<base>|<txv>;<base>...
   exec <active> p <outer txv> <inner txv | none> <base>
   prod <active> <txv>|<txv>...              -> take | skip
-  pool <reach 0|1> <base> <txv>;<addrOk 0|1>|...    -> accepted | blocked | other
+  pool <reach 0|1> <base> <txv>;<addrOk 0|1>;<inner txv|none>|...    -> accepted | blocked | other
   delay <txv>                               -> cached | blocked
 txv = <from>/<to>/<realTo>/<evm>,  evm = `n` | <contract text>:<para raw hex>
 -/
@@ -88,7 +88,9 @@ def step (set : List Raw) (line : String) : List Raw × String :=
   | ["pool", r, b, l] =>
     let ms := (l.splitOn "|").mapM fun m =>
       match m.splitOn ";" with
-      | [t, a] => do pure (← txv? t, a == "1")
+      | [t, a, i] => do
+        let inner ← (if i == "none" then some none else (txv? i).map some)
+        pure ({ outer := ← txv? t, addrOk := a == "1", inner := inner } : PoolTx)
       | _ => none
     match poolRes? b, ms with
     | some b, some ts => (set, poolS (poolSubmit set ts (r == "1") b))
